@@ -209,6 +209,42 @@ def oracle_C10(meta, kw, res):
     return out
 
 
+def eval_expr(expr, t, y):
+    """evaluates a generator expression (prefix, ',' separated: see gen.py) with Python floats"""
+    from .harness import unhx
+    toks = expr.split(",")
+    pos = [0]
+
+    def ev():
+        k = toks[pos[0]]
+        pos[0] += 1
+        if k == "t":
+            return t
+        if k[0] == "c":
+            return unhx(k[1:])
+        if k[0] == "y" and k[1:].isdigit():
+            return y[int(k[1:])]
+        if k in ("+", "-", "*", "/"):
+            a = ev()
+            b = ev()
+            try:
+                return a + b if k == "+" else a - b if k == "-" else a * b if k == "*" else a / b
+            except (ZeroDivisionError, OverflowError):
+                return float("nan")
+        if k == "neg":
+            return -ev()
+        if k == "abs":
+            return abs(ev())
+        if k == "sqrt":
+            a = ev()
+            return math.sqrt(a) if a >= 0 else float("nan")
+        if k == "iflt":
+            a, b, c, dd = ev(), ev(), ev(), ev()
+            return c if a < b else dd
+        raise ValueError("unknown token %r" % k)
+    return ev()
+
+
 def oracle_C08(meta, kw, res):
     out = []
     st = res.get("status")
@@ -217,6 +253,25 @@ def oracle_C08(meta, kw, res):
     d = direction(kw)
     x0, xend = kw["x0"], kw["xend"]
     slack = ulp_slack(x0, xend)
+    # genuine roots: g(t_e, y_e) is zero to root-finder accuracy.  The refinement works on the time axis
+    # (tolerance 4 eps |t| + 2e-12), so |g| is bounded by that times the local slope of g along the solution; the
+    # threshold below allows a slope of 1e5 x (the largest |g| seen at any reported sample, at least 1).
+    for i, ev in enumerate(kw["events"]):
+        expr = ev.split("/", 2)[2]
+        tev = res.get("tev", {}).get(i, [])
+        yev = res.get("yev", {}).get(i, [])
+        if not tev or len(tev) != len(yev):
+            continue
+        try:
+            scale = max([1.0] + [abs(eval_expr(expr, tt, yy)) for tt, yy in zip(res.get("t", []), res.get("y", []))
+                                 if all(v == v and abs(v) != math.inf for v in yy)])
+            for te_, ye_ in zip(tev, yev):
+                g = eval_expr(expr, te_, ye_)
+                if g == g and abs(g) > 1e-6 * scale:
+                    out.append(("event-not-a-root", "event %d reported at t=%r where g = %r (scale of g over the run %.3g): not a root of the event function" % (i, te_, g, scale)))
+                    break
+        except (ValueError, IndexError):
+            pass
     for i, tev in res.get("tev", {}).items():
         for a, b in zip(tev, tev[1:]):
             # the same root may be reported from both adjacent steps; such twins are ordered only up to root-finder accuracy
